@@ -123,6 +123,12 @@ def variant_modules(rng, pid, p, tier):
         vid = f"{pid}_str"
         ms = lambda n: f"s{n}"
         out.append((vid, eng.rs_module(vid, p, nm=eng.Names(ity="String", const=lambda n: f'"{ms(n)}".to_string()')), "retype-String", ms))
+        # the same renamings under ascent_par! (hash-sharded concurrent indices: which shard a constant lands in must not matter)
+        for k, mk in enumerate([lambda n: n * 7 + 100000, lambda n: n * 1000 + 3, lambda n: 5 - n][: 2 if tier == "quick" else 3]):
+            vid = f"{pid}_pari{k}"
+            out.append((vid, eng.rs_module(vid, p, nm=eng.Names(const=lambda n, mk=mk: str(mk(n))), macro="ascent_par"), "par-rename-consts", mk))
+    vid = f"{pid}_par"
+    out.append((vid, eng.rs_module(vid, p, macro="ascent_par"), "par", None))
     return out
 
 
@@ -145,7 +151,7 @@ def build(rng, tier):
                 inp_v = {r: r2.shuffle(rows) for r, rows in inp.items()} if kind == "perm" else inp
                 mp = (lambda t: tuple(vmap(x) for x in t)) if vmap else (lambda t: t)
                 inst = f"{vid}_{j}"
-                ops = [f"eng new {inst} {vid}"] + [f"eng load {inst} r{r}" + "".join(" " + eng.sx_tuple(mp(t)) for t in rows) for r, rows in sorted(inp_v.items())] + [f"eng run {inst}", f"eng dump {inst}"]
+                ops = [f"eng new {inst} {vid}" + (f" par {r2.choice([2, 4, 8])}" if kind.startswith("par") else "")] + [f"eng load {inst} r{r}" + "".join(" " + eng.sx_tuple(mp(t)) for t in rows) for r, rows in sorted(inp_v.items())] + [f"eng run {inst}", f"eng dump {inst}"]
                 exp = {r: {eng.sx_tuple(mp(t)) for t in eng.naive_model(p, inp).get(r, ())} for r in range(len(p["rels"]))}
                 cases.append(engcheck.Case(vid, inst, ops, {"inp": inp, "kind": kind, "expected": exp, "mapped": vmap is not None}))
     return progs, mods, cases
@@ -167,4 +173,4 @@ def check(tier, replay=None):
                                  build=build, oracle=oracle, canon=canon, what="metamorphic variants of compiled programs",
                                  rule="base programs (general and function-free) x variants {rule / declaration / head-clause / independent-body-item permutations with "
                                       "shuffled input vectors; variable and relation renamings incl. trailing-underscore names; i64 -> i32 and i64 -> String through an "
-                                      "injective constant map} x inputs; every variant's relations must equal the base's naive least model (mapped through the constant map)")
+                                      "injective constant map; the same programs and constant renamings under ascent_par! in pools of 2-8 threads} x inputs; every variant's relations must equal the base's naive least model (mapped through the constant map)")
